@@ -17,13 +17,22 @@ PROP = "C03"
 WATCHDOG_S = 3000
 
 
-def close(a, b):
+def close(a, b, m=0.0):
     if math.isnan(a) or math.isnan(b):
         return False
-    return a == b or abs(a - b) <= 1e-9 * (1.0 + abs(a) + abs(b)) or abs(a - b) <= 1e-9 * 1e3
+    return a == b or abs(a - b) <= 1e-9 * (1.0 + abs(a) + abs(b) + m)
 
 
-def compare(rec, tag, desc, A, B, ctx):
+def magnitudes(desc, vals, pars):
+    """Sum of absolute terms of every update (from the scalar reference) — the scale of the
+    rounding error when terms cancel."""
+    try:
+        return R.ref_step(desc, vals, pars).mag
+    except Exception:
+        return {}
+
+
+def compare(rec, tag, desc, A, B, ctx, mags=None):
     for eid, d in B.items():
         for name, v in d.items():
             vb = v if isinstance(v, list) else [v]
@@ -32,9 +41,11 @@ def compare(rec, tag, desc, A, B, ctx):
                 rec.violation(f"{PROP}:{tag}: compiled function gives no successor for a state", dict(ctx, element=eid, var=name))
                 return False
             va = va if isinstance(va, list) else [va]
+            mg = (mags or {}).get(eid, {}).get(name, 1e3)
+            mg = mg if isinstance(mg, list) else [mg] * len(vb)
             for i, (x, y) in enumerate(zip(va, vb)):
                 rec.count("scalars_compared")
-                if not close(x, y):
+                if not close(x, y, mg[i] if i < len(mg) else 1e3):
                     kind = "link" if any(l["id"] == eid for l in desc["links"]) else "origin"
                     rec.violation(f"{PROP}:{tag}: {kind}.{name}+ differs", dict(ctx, element=eid, var=name, index=i, compiled=x, other=y))
                     return False
@@ -105,7 +116,8 @@ def run(M, rec, tier, seed, k, n):
                                           dict(ctx0, vals=vals, exception=repr(e)[:300]))
                             break
                         rec.count("function_evaluations")
-                        ok = compare(rec, f"{st} compact={compact} params={'yes' if keys else 'no'} vs NumPy", desc, xn, twin, dict(ctx0, vals=vals))
+                        ok = compare(rec, f"{st} compact={compact} params={'yes' if keys else 'no'} vs NumPy", desc, xn, twin,
+                                     dict(ctx0, vals=vals), magnitudes(desc, vals, pars))
                         per_type.setdefault((compact, id(vals)), {})[st] = xn
                         if rec.counters["function_evaluations"] == 5:
                             rec.sample({"desc": desc, "vals": vals, "sym_type": st, "compact": compact,
